@@ -17,6 +17,7 @@ def templates(tier):
           ('hex-32-digits', T('0x' + 'f' * 31, 2), 33),
           ('hex-leading-zeros', T('0x' + '0' * 30 + 'A', 2), 33),
           ('binary-128-digits', T('0b' + '1' * 127, 2), 129),
+          ('binary-leading-zero', T('0b0' + '1' * 126, 2), 129),
           ('zero-prefix', T('0', k + 1), 1),
           ('suffix-u', T('255u', k), 4),
           ('suffix-i12', T('1i12', 2), 4),
